@@ -48,7 +48,7 @@ impl Property for C08 {
     fn components_real(&self) -> Vec<&'static str> { vec!["production::ReplicatedShardedState::{execute,apply_recovered_state,apply_remote_deltas,snapshot_state,set_wal_handle,set_delta_sink}", "ReplicatedShardActor (ApplyRecoveredState, ApplyRemoteDelta, record_mutation_post_execute), ShardReplicaState lamport clocks", "streaming::{StreamingPersistence,CheckpointManager,ManifestManager,RecoveryManager}, delta_sink channel", "streaming::wal_actor (Always policy) + WalRotator::recover_all_entries"] }
     fn components_stubbed(&self) -> Vec<&'static str> { vec!["server_persistent main(): recovery and worker wiring restated (integration.recover -> apply_recovered_state; WAL replay of all entries; delta sink drained into StreamingPersistence at flush events instead of by the timer-driven worker)", "ObjectStore -> SimStore, WalStore -> SimWalStore; gossip transport -> direct hand-over of serialized messages"] }
     fn required_probes(&self) -> Vec<&'static str> { vec!["write_after_restart_same_key", "recovered_from_checkpoint", "recovered_from_wal", "remote_delta_far_ahead"] }
-    fn runs(&self, tier: Tier) -> u64 { match tier { Tier::Quick => 1500, Tier::Thorough => 60_000 } }
+    fn runs(&self, tier: Tier) -> u64 { match tier { Tier::Quick => 80000, Tier::Thorough => 2000000 } }
 
     fn run(&self, src: &mut Src, ctx: &RunCtx) -> RunReport {
         let mut rep = RunReport::default();
